@@ -91,6 +91,29 @@ def scalar_pool(rng, dt):
     return S.pick(rng, pool)
 
 
+def gram_extras(rng, node, dt, free):
+    """Sometimes surround the Gram pair with further factors: X^H X B, H X^H X, H X X^H B (a product that merely contains
+    a Gram pair is in general not even Hermitian)."""
+    if rng.random() < 0.55:
+        return node
+    p = R.shape_of(node)[0]
+    where = S.pick(rng, ["tail", "tail", "head", "both"])
+
+    def factor(side):
+        name = S.pick(rng, ["plain", "plain", "SelfAdjoint", "PSD", "Unitary"])
+        if free and name == "plain" and rng.random() < 0.3:  # non-square outer factor
+            q = p + int(rng.integers(1, 3))
+            return true_leaf(rng, q, dt, "plain", m=p) if side == "tail" else true_leaf(rng, p, dt, "plain", m=q)
+        return true_leaf(rng, p, dt, name)
+    if where in ("tail", "both"):
+        node["tail"] = [factor("tail") for _ in range(int(rng.integers(1, 3)))][:1 if free else 2]
+    if where in ("head", "both"):
+        node["head"] = [factor("head")]
+    node["via"] = S.pick(rng, ["fn", "fn", "ctor"])
+    node["assoc"] = S.pick(rng, ["left", "pair-first"])
+    return node
+
+
 def gen_annot_tree(rng, depth, dt, shape=None):
     n = shape[1] if shape else int(rng.integers(1, 6))
     m = shape[0] if shape else n
@@ -131,10 +154,10 @@ def gen_annot_tree(rng, depth, dt, shape=None):
         if not free:  # result must be n x n: use the A^T A / A^H A forms of an mm x n factor, or a square factor
             inner = S.pick(rng, [lambda: true_leaf(rng, n, dt, "plain", m=mm), lambda: true_leaf(rng, n, dt, "Stiefel", m=mm),
                                  lambda: true_leaf(rng, n, dt, "Unitary")])()
-            return {"k": "Gram", "form": S.pick(rng, ["TA", "HA"]), "same": bool(rng.random() < 0.7), "arg": inner}
+            return gram_extras(rng, {"k": "Gram", "form": S.pick(rng, ["TA", "HA"]), "same": bool(rng.random() < 0.7), "arg": inner}, dt, False)
         inner = S.pick(rng, [lambda: true_leaf(rng, n, dt, "plain", m=mm), lambda: true_leaf(rng, n, dt, "Stiefel", m=mm),
                              lambda: true_leaf(rng, n, dt, "Unitary"), lambda: gen_annot_tree(rng, 0, dt, (n, n))])()
-        return {"k": "Gram", "form": S.pick(rng, ["TA", "HA", "AT", "AH"]), "same": bool(rng.random() < 0.7), "arg": inner}
+        return gram_extras(rng, {"k": "Gram", "form": S.pick(rng, ["TA", "HA", "AT", "AH"]), "same": bool(rng.random() < 0.7), "arg": inner}, dt, True)
     if k in ("Kronecker", "BlockDiag"):
         name = S.pick(rng, ["SelfAdjoint", "PSD", "Unitary", "Stiefel", "plain", "mixed"])
         args = []
@@ -203,6 +226,7 @@ def node_preds(node):
     if k == "Gram":
         p["form"] = node["form"]
         p["same_object"] = node.get("same", True)
+        p["extra_factors"] = "+".join(x for x in ("head", "tail") if node.get(x)) or "none"
     if k == "Sliced":
         p["equal_slices"] = node["slices"][0] == node["slices"][1]
     if k in ("Transpose", "Adjoint", "Gram", "Annot"):
